@@ -36,6 +36,14 @@
 EXTENDS Naturals, FiniteSets, Sequences, TLC
 
 CONSTANTS ReqV4, ReqV6, ReqDual,  \* request ids (strings) by requested families
+          ReqFail,                \* dual-stack requests whose FIRST selection (v4) fails (they name a ClientConf generation no subnet
+                                  \* file has): processBdReq returns the error from inside the locked region - no response is built
+          ReqFail6,               \* v6-only requests of that kind: their only selection, the v6 one, fails
+          ErrorPath,              \* what the failing path does before it returns: "plain" - nothing (the code);  "rlock" - it takes
+                                  \* the read lock AGAIN (to look at the selector and classify the error) while the first one is
+                                  \* still held: a broken instance, deadlocks behind a pending reload;  "leak6" - the return after
+                                  \* a failed v6 selection forgets to release the read lock: a broken instance, the next reload
+                                  \* never gets the write lock
           Reloads,                \* reload ids (strings)
           ToB,                    \* the reloads that find file "B" on disk (the others find "A")
           Bad,                    \* the reloads that find a malformed file: ReloadSubnets returns an error and changes nothing
@@ -54,8 +62,9 @@ VARIABLES readers, writerWaiting, writerHolding, writer,
           loaded,   \* [Reloads -> {"-","A","B"}]
           obs       \* observation of the last step
 
-Requests == ReqV4 \cup ReqV6 \cup ReqDual
-Fam(r) == IF r \in ReqDual THEN "dual" ELSE IF r \in ReqV4 THEN "v4" ELSE "v6"
+Failing == ReqFail \cup ReqFail6
+Requests == ReqV4 \cup ReqV6 \cup ReqDual \cup Failing
+Fam(r) == IF r \in ReqDual \cup ReqFail THEN "dual" ELSE IF r \in ReqV4 THEN "v4" ELSE "v6"
 Target(m) == IF m \in Bad THEN "bad" ELSE IF m \in ToB THEN "B" ELSE "A"
 \* order of a reload's steps
 FirstStep == IF ReloadOrder = "load-first" THEN "load" ELSE "announce"
@@ -69,9 +78,14 @@ Op(o) == [op |-> o, f |-> "-"]
 SelOp(f) == [op |-> "sel", f |-> f]
 Fams(r) == IF Fam(r) = "dual" THEN <<"v4", "v6">> ELSE <<Fam(r)>>
 
+\* a failing request: read lock, the first selection (which fails), [the error path], release - whatever the protocol
+FailProg(r) == <<Op("rlock"), SelOp(IF r \in ReqFail6 THEN "v6" ELSE "v4")>>
+               \o (IF ErrorPath = "rlock" THEN <<Op("rlock"), Op("classify")>> ELSE <<>>)
+               \o (IF ErrorPath = "leak6" /\ r \in ReqFail6 THEN <<Op("return")>> ELSE <<Op("runlock")>>)
 Prog(r) ==
   LET fs == Fams(r) IN
-  CASE Protocol = "single" ->
+  CASE r \in Failing -> FailProg(r)
+    [] Protocol = "single" ->
          <<Op("rlock")>> \o [i \in 1..Len(fs) |-> SelOp(fs[i])] \o <<Op("build"), Op("runlock")>>
     [] Protocol = "nested-deferred" ->
          (IF Len(fs) = 2 THEN <<Op("rlock"), SelOp(fs[1]), Op("rlock"), SelOp(fs[2])>>
@@ -114,6 +128,7 @@ Init == /\ readers = 0 /\ writerWaiting = FALSE /\ writerHolding = FALSE /\ writ
 RLockEn(r)   == NextOp(r).op = "rlock" /\ ~writerWaiting /\ ~writerHolding
 SelectEn(r)  == NextOp(r).op = "sel"
 BuildEn(r)   == NextOp(r).op = "build"
+ClassifyEn(r) == NextOp(r).op \in {"classify", "return"}
 RUnlockEn(r) == NextOp(r).op = "runlock"
 LoadEn(m)    == mpc[m] = "load"
 AnnounceEn(m) == mpc[m] = "announce" /\ ~writerWaiting /\ ~writerHolding
@@ -132,7 +147,7 @@ RLock(r) ==
 
 Select(r) ==
   /\ SelectEn(r)
-  /\ gen' = [gen EXCEPT ![r][NextOp(r).f] = cur]
+  /\ gen' = IF r \in Failing THEN gen ELSE [gen EXCEPT ![r][NextOp(r).f] = cur]     \* a failed selection yields nothing
   /\ rpc' = [rpc EXCEPT ![r] = @ + 1]
   /\ UNCHANGED <<readers, writerWaiting, writerHolding, writer, cur, held, resp, mpc, loaded>>
   /\ obs' = [a |-> "Select", p |-> r, f |-> NextOp(r).f]
@@ -143,6 +158,13 @@ Build(r) ==
   /\ rpc' = [rpc EXCEPT ![r] = @ + 1]
   /\ UNCHANGED <<readers, writerWaiting, writerHolding, writer, cur, held, gen, mpc, loaded>>
   /\ obs' = [a |-> "Build", p |-> r, f |-> "-"]
+
+\* (broken instance only) the error path looks at the selector under its second read lock
+Classify(r) ==
+  /\ ClassifyEn(r)
+  /\ rpc' = [rpc EXCEPT ![r] = @ + 1]
+  /\ UNCHANGED <<readers, writerWaiting, writerHolding, writer, cur, held, gen, resp, mpc, loaded>>
+  /\ obs' = [a |-> "Classify", p |-> r, f |-> "-"]
 
 \* releases every read lock the request holds (the deferred RUnlocks run back to back at return)
 RUnlock(r) ==
@@ -192,7 +214,7 @@ Unlock(m) ==
   /\ UNCHANGED <<readers, writerWaiting, cur, rpc, held, gen, resp, loaded>>
   /\ obs' = [a |-> "Unlock", p |-> m, f |-> "-"]
 
-ReqNext(r) == RLock(r) \/ Select(r) \/ Build(r) \/ RUnlock(r)
+ReqNext(r) == RLock(r) \/ Select(r) \/ Build(r) \/ Classify(r) \/ RUnlock(r)
 ReloadNext(m) == Load(m) \/ Announce(m) \/ Acquire(m) \/ Swap(m) \/ Unlock(m)
 \* stuttering once everything returned, so that TLC's deadlock check reports real deadlocks only
 Terminated == AllDone /\ UNCHANGED vars
@@ -217,8 +239,9 @@ WholeGeneration == \A r \in ReqDual : (resp[r].v4 # "-" /\ resp[r].v6 # "-") => 
 EventuallyAllDone == <>[]AllDone
 \* a finished request answered every family it was asked for
 ResponseComplete == \A r \in Requests : ReqDone(r) =>
-                      /\ (Fam(r) \in {"v4", "dual"}) = (resp[r].v4 # "-")
-                      /\ (Fam(r) \in {"v6", "dual"}) = (resp[r].v6 # "-")
+                      IF r \in Failing THEN resp[r].v4 = "-" /\ resp[r].v6 = "-"        \* an error, no response
+                      ELSE /\ (Fam(r) \in {"v4", "dual"}) = (resp[r].v4 # "-")
+                           /\ (Fam(r) \in {"v6", "dual"}) = (resp[r].v6 # "-")
 \* secondary: the lock's own bookkeeping
 RECURSIVE SumHeld(_)
 SumHeld(S) == IF S = {} THEN 0 ELSE LET x == CHOOSE x \in S : TRUE IN held[x] + SumHeld(S \ {x})
